@@ -270,6 +270,8 @@ pub struct Trace {
     pub finalize_after_error: bool,
     /// that finalize call reported success
     pub finalized_after_error: bool,
+    /// input flag: calls on an image writer after its finalize (must be refused)
+    pub late_image_calls: bool,
 }
 impl Trace {
     fn after_ok(&mut self, name: &str) {
@@ -383,6 +385,22 @@ pub fn exec_image<T: std::io::Read + std::io::Write + std::io::Seek>(w: &mut E57
     }
     if im.finalize {
         call!(tr, "image.finalize", iw.finalize());
+        if tr.late_image_calls {
+            // a finalized image is complete: a representation added afterwards would be written but never listed
+            let data = [1u8, 2, 3, 4, 5];
+            let mut r: &[u8] = &data;
+            tr.current = "add_visual_reference (after image.finalize)".into();
+            tr.calls += 1;
+            if iw.add_visual_reference(ImageFormat::Png, &mut r, VisualReferenceImageProperties { width: 1, height: 1 }, None).is_ok() {
+                tr.error = Some(("add_visual_reference after image.finalize".into(), "accepted data for an image that was already finalized (it is never listed)".into()));
+                return;
+            }
+            tr.current = "image.finalize (second call)".into();
+            tr.calls += 1;
+            if iw.finalize().is_ok() {
+                tr.error = Some(("image.finalize (second call)".into(), "accepted: the image would be listed twice".into()));
+            }
+        }
     }
 }
 
